@@ -476,7 +476,9 @@ func (pr *prover) le(a, b term, pt point, depth int, seen map[[2]ssa.Value]bool)
 		if y.Op == token.ADD {
 			// a <= X  and Y >= 0  =>  a <= X + Y
 			for _, pair := range [][2]ssa.Value{{y.X, y.Y}, {y.Y, y.X}} {
-				if pr.nonNegAt(pair[1], pt) {
+				// x <= x + y needs y >= 0 AND no wrap-around: both addends must be bounded above
+				// (lengths, indices, constants, or values compared against such)
+				if pr.nonNegAt(pair[1], pt) && pr.boundedAbove(pair[0], pt, 0) && pr.boundedAbove(pair[1], pt, 0) {
 					xt := norm(pair[0])
 					xt.off += b.off
 					if pr.le(a, xt, pt, depth+1, seen2) {
@@ -725,4 +727,74 @@ func (pr *prover) nonNegAt(v ssa.Value, pt point) bool {
 	}
 	l, ok := pr.lowerBound(t.v, pt, 0)
 	return ok && l+t.off >= 0
+}
+
+// boundedAbove: v cannot be anywhere near the largest int: it is a constant,
+// a length, an index into a collection, a difference/minimum of such, or is
+// compared (<, <=) against such on every path to pt. Needed wherever the
+// prover reasons about sums, which wrap around in Go.
+func (pr *prover) boundedAbove(v ssa.Value, pt point, depth int) bool {
+	if depth > 6 {
+		return false
+	}
+	t := norm(v)
+	if t.v == nil {
+		return true
+	}
+	v = t.v
+	switch x := v.(type) {
+	case virtualLen:
+		return true
+	case *ssa.Call:
+		switch an.CallName(&x.Call) {
+		case "builtin.len", "builtin.cap", "(reflect.Value).Len", "unicode/utf8.RuneCountInString", "strings.Count", "strings.Index", "strings.LastIndex":
+			return true
+		case "builtin.min":
+			for _, a := range x.Call.Args {
+				if pr.boundedAbove(a, pt, depth+1) {
+					return true
+				}
+			}
+		}
+	case *ssa.Extract:
+		if nx, ok := x.Tuple.(*ssa.Next); ok && nx.IsString && x.Index == 1 {
+			return true
+		}
+		if c, ok := x.Tuple.(*ssa.Call); ok && strings.HasPrefix(an.CallName(&c.Call), "unicode/utf8.") {
+			return true
+		}
+	case *ssa.Phi:
+		for i, e := range x.Edges {
+			if e == ssa.Value(x) {
+				continue
+			}
+			et := norm(e)
+			if et.v == ssa.Value(x) {
+				continue
+			}
+			if !pr.boundedAbove(e, edgePoint(x.Block().Preds[i], x.Block()), depth+1) {
+				return false
+			}
+		}
+		return true
+	case *ssa.BinOp:
+		switch x.Op {
+		case token.SUB:
+			return pr.boundedAbove(x.X, pt, depth+1) && pr.nonNegAt(x.Y, pt)
+		case token.REM, token.QUO:
+			return pr.boundedAbove(x.X, pt, depth+1) || pr.boundedAbove(x.Y, pt, depth+1)
+		case token.ADD:
+			return pr.boundedAbove(x.X, pt, depth+1) && pr.boundedAbove(x.Y, pt, depth+1)
+		}
+	}
+	// a guard v <= w (+c) with w bounded
+	fs, _ := pr.factsAt(pt)
+	for _, f := range fs {
+		if f.x.v != nil && eqVal(f.x.v, v) {
+			if f.y.v == nil || pr.boundedAbove(f.y.v, pt, depth+1) {
+				return true
+			}
+		}
+	}
+	return false
 }
